@@ -21,6 +21,8 @@ import VsgProofs.Lemmas.Classify
 import VsgProofs.Lemmas.ClassifyPost
 import VsgProofs.Lemmas.ClassifyPta
 import VsgProofs.Lemmas.LexRelayout
+import VsgModel.Indent.SetIndent
+import VsgProofs.Lemmas.SetIndent
 namespace Vsgm.C05
 open Vsgm Vsgm.Classify Vsgm.Lex
 
@@ -376,5 +378,127 @@ example : prevIs pyClassTables pyPostTables.openParen [todoTok "-", todoTok "x",
 example : create pyTables ("x".toList ++ " ".toList ++ "<= y".toList) = ["x".toList] ++ [" ".toList] ++ ["<=".toList, " ".toList, "y".toList]
     ∧ create pyTables ("x".toList ++ "\t  ".toList ++ "<= y".toList) = ["x".toList] ++ ["\t  ".toList] ++ ["<=".toList, " ".toList, "y".toList] := by
   decide +kernel
+
+/-! ### BEGIN ag_setindent (`set_token_indent`: which re-layouts the indent levels are blind to) -/
+
+section SetIndent
+open Vsgm.Indent
+
+/-- **`set_token_indent` is blind to whitespace and line breaks.**  `E` = class table, `m` = indent map
+    (default or merged with a user `indent:` section), `strip` deletes the `parser.whitespace` and
+    `parser.carriage_return` tokens — everything else (code, comments, pragmas, `parser.blank_line` tokens,
+    with the attributes the function reads: class, lower-case value, block-comment mark, old indent) stays.
+    Two token lists that agree after `strip` get the same indents on all remaining tokens, whenever both
+    calls return.  Hypotheses on the tables (`LayoutOk`: a carriage return is no blank line, layout classes
+    are no library names; `SkipOk`: the classes `find_next_non_whitespace_token` skips are no `use` /
+    `context` keywords, have a `unique_id`, and are no keys of the indent map) hold for the pinned tree
+    (`setIndent_layoutBlind_py`).  A call does not return only for `IndexError` (a comment as very last
+    token), a class without `unique_id`, or an indent map with missing / non-integer values. -/
+theorem setIndent_layoutBlind (E : Env) (m : IndentMap) (L : LayoutOk E) (H : SkipOk E (processIndentMap m))
+    (l₁ l₂ r₁ r₂ : List ITok) (hs : strip E l₁ = strip E l₂)
+    (h₁ : setTokenIndent E m l₁ = .ok r₁) (h₂ : setTokenIndent E m l₂ = .ok r₂) :
+    strip E r₁ = strip E r₂ :=
+  setTokenIndent_layoutBlind E m L H l₁ l₂ r₁ r₂ hs h₁ h₂
+
+/-- … for the class table and the default `indent_config.yaml` of the pinned tree, no hypothesis left -/
+theorem setIndent_layoutBlind_py (l₁ l₂ r₁ r₂ : List ITok) (hs : strip genEnv l₁ = strip genEnv l₂)
+    (h₁ : setTokenIndent genEnv Gen.indentConfig l₁ = .ok r₁)
+    (h₂ : setTokenIndent genEnv Gen.indentConfig l₂ = .ok r₂) :
+    strip genEnv r₁ = strip genEnv r₂ :=
+  setTokenIndent_layoutBlind genEnv Gen.indentConfig genEnv_layoutOk genEnv_skipOk l₁ l₂ r₁ r₂ hs h₁ h₂
+
+/-- … and for every indent map a user `indent:` section can produce from it (`read_indent_configuration`
+    assigns into existing entries only — an unknown group or token name ends the run — so no key is added) -/
+theorem setIndent_layoutBlind_userConfig (user : Option IndentMap) (m : IndentMap)
+    (hm : readIndentConfiguration Gen.indentConfig user = .ok m)
+    (l₁ l₂ r₁ r₂ : List ITok) (hs : strip genEnv l₁ = strip genEnv l₂)
+    (h₁ : setTokenIndent genEnv m l₁ = .ok r₁) (h₂ : setTokenIndent genEnv m l₂ = .ok r₂) :
+    strip genEnv r₁ = strip genEnv r₂ :=
+  setTokenIndent_layoutBlind genEnv m genEnv_layoutOk (SkipOk.of_merge genEnv _ user m genEnv_skipOk hm)
+    l₁ l₂ r₁ r₂ hs h₁ h₂
+
+/-- **blind to comments as well**: `stripC` also deletes the comment tokens (`parser.comment` and its
+    subclasses: pragmas, the delimiters of delimited comments).  Adding, deleting or moving comments changes
+    the indent of no other token — a comment only receives an indent (from the look-ahead), it changes no
+    parameter of the loop and every look-ahead skips it.  (The indent a comment itself gets does depend on
+    where it stands.) -/
+theorem setIndent_commentBlind (user : Option IndentMap) (m : IndentMap)
+    (hm : readIndentConfiguration Gen.indentConfig user = .ok m)
+    (l₁ l₂ r₁ r₂ : List ITok) (hs : stripC genEnv l₁ = stripC genEnv l₂)
+    (h₁ : setTokenIndent genEnv m l₁ = .ok r₁) (h₂ : setTokenIndent genEnv m l₂ = .ok r₂) :
+    stripC genEnv r₁ = stripC genEnv r₂ :=
+  setTokenIndent_commentBlind genEnv m genEnv_layoutOk (SkipOk.of_merge genEnv _ user m genEnv_skipOk hm)
+    genEnv_commentOk l₁ l₂ r₁ r₂ hs h₁ h₂
+
+/-- … and the class of every token is untouched: the function writes `indent` only -/
+theorem setIndent_keys (E : Env) (m : IndentMap) (l r : List ITok) (h : setTokenIndent E m l = .ok r) :
+    keys r = keys l :=
+  setTokenIndent_keys E m l r h
+
+/-- **not blind to blank lines** (`parser.blank_line` resets `bLibraryFound`): `library` `context` gives the
+    context reference indent 1, `library` ⟨blank line⟩ `context` gives it indent 0 — so a re-layout that adds or
+    removes an empty line CAN change the indent of a code token (`context_reference.keyword`) and of the
+    comments behind a library clause; this is why `strip` keeps the blank-line tokens -/
+theorem setIndent_not_blankLineBlind :
+    let tk : Nat → ITok := fun c => { key := { cls := c, lower := [] }, indent := none }
+    let N := Gen.indentCls
+    ((setTokenIndent genEnv Gen.indentConfig [tk N.libKw, tk N.ctxRefKw]).toOption.map (·.map (·.indent))
+        = some [some 0, some 1]) ∧
+    ((setTokenIndent genEnv Gen.indentConfig [tk N.libKw, tk N.blankLine, tk N.ctxRefKw]).toOption.map (·.map (·.indent))
+        = some [some 0, none, some 0]) := by
+  decide +kernel
+
+/-- **the `_ok` hypotheses are needed**: a comment that is the very last token raises `IndexError`
+    (`lTokens[iToken + 1]`), the same comment followed by a whitespace token does not — the two lists are
+    re-layouts of each other.  (Every list the parser builds ends in a carriage return.) -/
+theorem setIndent_trailingComment_raises :
+    let tk : Nat → ITok := fun c => { key := { cls := c, lower := [] }, indent := none }
+    let N := Gen.indentCls
+    (setTokenIndent genEnv Gen.indentConfig [tk N.comment]).toOption = none ∧
+    ((setTokenIndent genEnv Gen.indentConfig [tk N.comment, tk N.whitespace]).toOption.map (·.map (·.indent))
+        = some [some 0, none]) := by
+  decide +kernel
+
+/-- non-vacuity: `library` ⟨ws⟩ `ieee` ⟨cr⟩ ⟨ws⟩ `use` and `library` `ieee` `use` both return and are re-layouts
+    of each other -/
+example :
+    let tk : Nat → ITok := fun c => { key := { cls := c, lower := ['i', 'e', 'e', 'e'] }, indent := none }
+    let N := Gen.indentCls
+    let l₁ := [tk N.libKw, tk N.whitespace, tk N.logicalName, tk N.carriageReturn, tk N.whitespace, tk N.useKw, tk N.useLibName]
+    let l₂ := [tk N.libKw, tk N.logicalName, tk N.useKw, tk N.useLibName]
+    strip genEnv l₁ = strip genEnv l₂ ∧
+    ((setTokenIndent genEnv Gen.indentConfig l₁).toOption.map (fun r => (strip genEnv r).map (·.indent))
+        = some [some 0, none, some 1, none]) ∧
+    ((setTokenIndent genEnv Gen.indentConfig l₂).toOption.map (fun r => (strip genEnv r).map (·.indent))
+        = some [some 0, none, some 1, none]) := by
+  decide +kernel
+
+/-- non-vacuity of the `_userConfig` statements: the first example of docs/configuring_indentation.rst is
+    accepted by `readIndentConfiguration` and changes the entry; an unknown token name is refused -/
+example :
+    ((readIndentConfiguration Gen.indentConfig
+        (some [("port_clause", [("close_parenthesis", [("token", .str "current"), ("after", .str "-2")])])])).toOption.map
+      fun m => dget (processIndentMap m) "port_clause:close_parenthesis")
+      = some (some [("token", .str "current"), ("after", .str "-2")]) ∧
+    (readIndentConfiguration Gen.indentConfig
+        (some [("port_clause", [("no_such_token", [("token", .int 1)])])])).toOption = none := by
+  decide +kernel
+
+/-- non-vacuity of `setIndent_commentBlind`: `architecture` ⟨comment⟩ `;` and `architecture` `;` -/
+example :
+    let tk : Nat → ITok := fun c => { key := { cls := c, lower := [] }, indent := none }
+    let N := Gen.indentCls
+    let l₁ := [tk N.archKw, tk N.comment, tk N.carriageReturn, tk N.archSemi]
+    let l₂ := [tk N.archKw, tk N.archSemi]
+    stripC genEnv l₁ = stripC genEnv l₂ ∧
+    ((setTokenIndent genEnv Gen.indentConfig l₁).toOption.map (fun r => (stripC genEnv r).map (·.indent))
+        = some [some 0, none]) ∧
+    ((setTokenIndent genEnv Gen.indentConfig l₂).toOption.map (fun r => (stripC genEnv r).map (·.indent))
+        = some [some 0, none]) := by
+  decide +kernel
+
+end SetIndent
+
+/-! ### END ag_setindent -/
 
 end Vsgm.C05
